@@ -22,6 +22,7 @@ def jobs(tier):
     mk('qrw_W_R', 2, 6, [W, R], timeout=900, mem_gb=16)
     mk('qrw_R_W', 2, 6, [R, W], timeout=900, mem_gb=16)
     mk('qrw_sym2', 2, 6, [S, S], timeout=1200, mem_gb=20)
+    mk('qrw_W_R_Wt_R', 4, 10, [W, R, W, R], timeout=1500, mem_gb=12)
     mk('rw_W_R', 2, 6, [W, R], extra=['USE_RWLOCK'], timeout=1500, mem_gb=24)
     if not q:
         mk('qrw_sym3', 3, 8, [S, S, S], timeout=6000, mem_gb=44)
